@@ -11,11 +11,13 @@ TECHNIQUE = ("Coq theorems over all states, requests and oracle tapes (an error 
 LEVEL_TEXT = ("For every tape: a panicking backend call yields Rlerror EFAULT; the reply to a request in which a backend call failed is Rlerror(ExtractErrno e) of the FIRST failing call "
               "for every request kind and call index (C15_first_fault_reply: multi-component walks incl. the GetAttr fallback, attach, rename, remove, xattr, clunk; side conditions: the handler itself "
               "does not panic, and for Tclunk/Tremove no Close of the request failed), with the fid table unchanged (Tclunk/Tremove minus their fid); the next request on any connection is answered "
-              "from a well-formed state. 'Every File obtained during the failed request is closed' is proved only for the walkOne GetAttr fallback (C15_obtained_closed_partial) and otherwise "
-              "evaluated on every observed faulted request (created_handles / closed_in in c15_step). "
+              "from a well-formed state. 'Every File obtained during the failed request is closed': on this model proved for the walkOne GetAttr fallback (C15_obtained_closed_partial); the whole-request statement "
+              "(every failing Twalk/Twalkgetattr/Tattach, any failing component/call, every history, every backend) is C15_obtained_closed_walk/_attach on the reference-count model Refs/Model.v (C05's model); "
+              "and it is evaluated on every observed faulted request (created_handles / closed_in in c15_step). "
               "Every run injects errors and panics at backend call indices of generated histories on the real server and replays the same tapes in the model.")
 LEVEL_NOTE = ("Trusted: Coq kernel + vm_compute; Go's defer/recover semantics as modelled by with_defer and step; locks are outside this model (C16/C07 lock graph). "
-              "After a panic Files obtained earlier in that request are not claimed closed (the walk reference is dropped by a plain call, not a defer).")
+              "After a panic Files obtained earlier in that request are not claimed closed (the walk reference is dropped by a plain call, not a defer). "
+              "C15_obtained_closed_walk/_attach are theorems about Refs/Model.v, whose tie to the code is C05's differential (./check C05: failures at every backend call index); this check ties the clause by c15_step on observed logs.")
 DESIGN_REF = "6/C15"
 ASSUMPTIONS = [
     "Go defer/recover behave as modelled (deferred calls run on panic, recover in connState.handle catches every handler panic)",
